@@ -138,6 +138,8 @@ def aspect(prev, ev, hk):
         return "emitter-configuration-changed(error-handler/logger/options)"
     if k == "earr" and r == 0 and prev.get("_head", {}).get("em") == "asm" and (ev.get("ew") or ("eb" in ev and sum(q["ss"]) - sum(p["ss"]) != ev["eb"])):
         return "accepts-wrapped-size" if ev.get("ew") else "appended-size-differs"
+    if r == 0 and ev.get("di"):
+        return "accepts-documented-invalid:" + ("misaligned-label-reference" if k == "inst" else k)
     if k == "inst" and r == 0 and ev.get("vr") and head_is_validating_x86_builder(prev):
         return "accepts-virtual-register-id"
     h_ = prev.get("_head", {})
